@@ -41,6 +41,9 @@ def materialise(case):
             os.symlink("sub", os.path.join(proj, e))
         elif e == "src/linkdir_out":
             os.symlink("../outside", os.path.join(proj, e))
+        elif e == "src/hardlinked.rs":
+            put(e)
+            os.link(os.path.join(proj, e), os.path.join(proj, "outside", "hardlinked_copy.rs"))
         elif e == "src/sub/b.rs.tmp":
             # a look-alike sibling of an in-scope file that is a link to a file outside the tree
             os.symlink("../../outside/o_target.rs", os.path.join(proj, e))
@@ -98,6 +101,9 @@ def run_case(job):
     try:
         cwd, arg = invocation(root, proj, case["inv"])
         tmp = os.path.join(root, "tmp")
+        if case.get("tmp") == "otherfs":
+            tmp = "/var/tmp/verif-scope-%d-%s" % (os.getpid(), os.path.basename(root))
+            os.makedirs(tmp, exist_ok=True)
         watch = [os.path.join(root, "work"), tmp]
         snap0 = bl.snapshot(watch)
         cwd_lock = os.path.join(cwd, "Breadlog.lock")
@@ -125,19 +131,27 @@ def run_case(job):
                 a, b = snap1.get(k), snap2.get(k)
                 if a and b and a[0] == "dir" and b[0] == "dir" and a[:3] == b[:3]:
                     continue        # only the directory's mtime changed (an entry was renamed into it)
+                if a and b and a[0] == "file" and b[0] == "file" and a[:6] == b[:6]:
+                    continue        # only the link count changed (another name of the inode was replaced)
                 changed.add(os.path.relpath(k, proj))
         lock_rel = "Breadlog.lock"
         modified = {c for c in changed if c != lock_rel and not c.startswith("../")}
         elsewhere = {c for c in changed if c.startswith("../")}
-        if modified != expected:
-            problems.append(("C15", "edit modified %s, in scope are %s" % (sorted(modified), sorted(expected))))
+        may_modify = set(case.get("modified", case["expected"]))
+        if case["sd"] == "hidden":
+            may_modify = {(".src" + e[3:]) if e.startswith("src/") else e for e in may_modify}
+        if modified != may_modify:
+            problems.append(("C15", "edit modified %s, expected %s (in scope are %s)" % (sorted(modified), sorted(may_modify), sorted(expected))))
         if elsewhere:
             problems.append(("C15", "edit changed entries outside the project: %s" % sorted(elsewhere)))
         for e in case["layout"]:
             p = os.path.join(proj, (".src" + e[3:]) if case["sd"] == "hidden" and e.startswith("src/") else e)
             if (e.startswith("src/link") or e == "src/sub/b.rs.tmp") and not os.path.islink(p):
                 problems.append(("C15", "symbolic link %s was replaced" % e))
-        if expected:
+        if expected and case.get("tmp") == "otherfs":
+            if r2.exit_class == 0:
+                problems.append(("C08", "edit exits 0 although no scratch file could be moved into place"))
+        elif expected:
             if r2.exit_class != 0:
                 problems.append(("C15", "edit failed (%s) although in-scope files exist: %s" % (r2.exit_class, r2.stdout[-200:])))
             if not os.path.exists(os.path.join(proj, "Breadlog.lock")):
@@ -170,3 +184,5 @@ def run_case(job):
         return problems, {"scanned": sorted(scanned), "modified": sorted(modified), "exit": [r1.exit_class, r2.exit_class]}
     finally:
         rm_scratch(root)
+        if case.get("tmp") == "otherfs":
+            shutil.rmtree("/var/tmp/verif-scope-%d-%s" % (os.getpid(), os.path.basename(root)), ignore_errors=True)
